@@ -43,7 +43,7 @@ inductive Err
   | protectionInvalid     -- `ProtectionInvalid`
   | decodeError           -- `DecodeError` (a `ProtectionInvalid`)
   | notProtected          -- `NotAProtectedMessage`: no OSCORE option at all
-  | valueError            -- `ValueError` (outer request code other than POST/FETCH; oversized field)
+  | valueError            -- `ValueError` (`_compress`: oversized field; since fix 51b9257 no longer reachable from `unprotect`)
   | contextUnavailable    -- `ContextUnavailable`: sender sequence numbers exhausted
   | unparsable            -- authentic plaintext that is not a CoAP message
   | assertion             -- a Python `assert` fails (ill-formed context)
@@ -174,15 +174,17 @@ structure RecvParams where
   seqno : Option Nat
 deriving Repr, DecidableEq
 
-/-- the KID-context and KID checks of `unprotect` (oscore.py:1268-1276): a field that is present
-must equal the recipient's own value; an absent field is not checked -/
-def idsAcceptable (B : Ctx) (u : Unprot) : Bool :=
+/-- the KID-context and KID checks of `unprotect` (oscore.py:1272-1286): a field that is present
+must equal the recipient's own value; an absent KID context is not checked; an absent KID is not
+checked in a response, and makes a request unverifiable (RFC 8613 section 5: 'kid' SHALL be
+present in requests — "No key ID provided in request", the audit-F `fix:`) -/
+def idsAcceptable (B : Ctx) (isResp : Bool) (u : Unprot) : Bool :=
   (match u.kidContext with
    | some c => some c == B.idContext      -- else "Sender ID context does not match"
    | none => true) &&
   (match u.kid with
    | some k => k == B.recipientId         -- else "Sender ID does not match"
-   | none => true)
+   | none => isResp)                      -- else "No key ID provided in request"
 
 /-- which Partial IV and generator id make the nonce, and which request identifiers go into
 the AAD -/
@@ -205,7 +207,7 @@ def selectPiv (B : Ctx) (rid : Option ReqId) (code : Nat) (u : Unprot) : Except 
     if code = 2 ∨ code = 5 then
       .ok { piv, gen := B.recipientId, seqno := some (beToNat piv),
             rid := { kid := B.recipientId, piv, canReuse := true, style := code } }
-    else .error .valueError                           -- `CodeStyle.from_request`
+    else .error .valueError                           -- `CodeStyle.from_request` (not reachable through `recvParams`: code checked first)
 
 /-- `unprotect` up to the decryption call: option decompression, KID-context and KID checks,
 Partial IV / request identifier selection, AAD and nonce.  (`tagBytes` is `alg_aead.tag_bytes`
@@ -223,7 +225,7 @@ def recvParams (tagBytes : Nat) (B : Ctx) (rid : Option ReqId) (o : Msg) : Excep
     match uncompress option with
     | none => .error .decodeError
     | some u =>
-      if !idsAcceptable B u then .error .protectionInvalid else
+      if !idsAcceptable B (isResponse o.code) u then .error .protectionInvalid else
       match selectPiv B rid o.code u with
       | .error e => .error e
       | .ok s =>
